@@ -32,7 +32,9 @@ def modes(f, shard):
                 continue
             yield m
     if f.name in ("getlbastatus", "reportluns", "reporttargetportgroups", "readelementstatus", "inquiry.vpd83"):
-        for n in (0, 1, 2, 3, 5):
+        for n in (0, 1, 2, 3, 5, 15, 16, 17, 31, 32, 33, 255, 256, 257):
+            if n > 33 and f.name == "readelementstatus":
+                continue
             yield ("count", n, 0) if f.name == "reporttargetportgroups" else ("count", n)
             if f.name == "reporttargetportgroups":
                 yield ("count", n, 1)
